@@ -362,6 +362,140 @@ impl Scenario for Upload {
     }
 }
 
+// -------------------------------------------------------------------------------------------
+// Real socket with back-pressure: a peer dials in (accept path), seeds the torrent to the client,
+// stays interested, then pipelines a thousand requests without reading and only afterwards reads
+// and judges every Piece frame. Single execution over loopback TCP with the real clock.
+// -------------------------------------------------------------------------------------------
+
+pub fn socket_backpressure_case(dir: &std::path::PathBuf) -> Result<(usize, Option<(&'static str, String)>), String> {
+    use crate::fixture::Torrent;
+    use tokio::io::{AsyncReadExt, AsyncWriteExt};
+    core::wipe_dir(dir);
+    rdest::verif::clear_snapshots();
+    rdest::verif::set_choices(vec![]);
+    rdest::verif::set_net(None);
+    rdest::verif::publish_listen_addr(None);
+    let t = Torrent::new("t", 65536, &[("f", 65536 * 4)], true);
+    let rt = tokio::runtime::Builder::new_current_thread().enable_all().build().map_err(|e| e.to_string())?;
+    let local = tokio::task::LocalSet::new();
+    let meta = t.meta.clone();
+    let res = local.block_on(&rt, async {
+        rdest::verif::set_http(Some(Box::new(move |_req: &reqwest::Request| crate::httpfake::respond(200, crate::fullworld::tracker_body(&[])))));
+        let mut session = rdest::Session::new(meta, *crate::world::OWN_ID);
+        let session_task = tokio::task::spawn_local(async move { session.verif_run().await });
+        let mut addr = None;
+        for _ in 0..400 {
+            tokio::time::sleep(std::time::Duration::from_millis(5)).await;
+            if let Some(a) = rdest::verif::listen_addr() {
+                addr = Some(a);
+                break;
+            }
+        }
+        let addr = addr.ok_or("the session never published its listening address".to_string())?;
+        let sock = tokio::net::TcpSocket::new_v4().map_err(|e| e.to_string())?;
+        let _ = sock.set_recv_buffer_size(32 * 1024);
+        let mut sock = sock.connect(std::net::SocketAddr::from(([127, 0, 0, 1], addr.port()))).await.map_err(|e| format!("cannot dial the client: {}", e))?;
+        sock.set_nodelay(true).ok();
+        let mut buf = vec![0u8; 1 << 16];
+        let mut received: Vec<u8> = vec![];
+        // phase 1: seed the torrent to the client (lock step), declaring interest ourselves
+        for m in [refwire::handshake(t.meta.info_hash(), b"-HS0001-backpressure"), Msg::Bitfield(vec![0xf0]), Msg::Interested, Msg::Unchoke] {
+            sock.write_all(&refwire::encode(&m)).await.map_err(|e| e.to_string())?;
+        }
+        let started = std::time::Instant::now();
+        let mut answered = 0usize;
+        let mut unchoked = false;
+        loop {
+            if started.elapsed() > std::time::Duration::from_secs(30) {
+                return Err("phase 1 (seeding the client) did not finish within 30 s".to_string());
+            }
+            match tokio::time::timeout(std::time::Duration::from_millis(100), sock.read(&mut buf)).await {
+                Ok(Ok(0)) | Ok(Err(_)) => return Err("the client closed the connection during phase 1".to_string()),
+                Ok(Ok(n)) => received.extend_from_slice(&buf[..n]),
+                Err(_) => {}
+            }
+            let (all, _, err) = refwire::decode_stream(&received);
+            if let Some(e) = err {
+                return Err(format!("client wrote undecodable bytes in phase 1: {}", e));
+            }
+            unchoked = unchoked || all.iter().any(|m| matches!(m, Msg::Unchoke));
+            let reqs: Vec<(u32, u32, u32)> = all.iter().filter_map(|m| if let Msg::Request(i, b, l) = m { Some((*i, *b, *l)) } else { None }).collect();
+            while answered < reqs.len() {
+                let (i, b, l) = reqs[answered];
+                answered += 1;
+                sock.write_all(&refwire::encode(&Msg::Piece(i, b, t.pieces[i as usize][b as usize..(b + l) as usize].to_vec()))).await.map_err(|e| e.to_string())?;
+            }
+            let haves = all.iter().filter(|m| matches!(m, Msg::Have(_))).count();
+            if haves == 4 && unchoked {
+                break;
+            }
+        }
+        let phase1_msgs = refwire::decode_stream(&received).0.len();
+        // phase 2: a thousand pipelined requests, nothing read meanwhile
+        let mut wanted: Vec<(u32, u32, u32)> = vec![];
+        for k in 0..1024u32 {
+            let piece = (k / 8) % 4;
+            let len = 16384 - (k * 37) % 9000;
+            let begin = (k * 7919) % (65536 - len);
+            wanted.push((piece, begin, len));
+        }
+        let mut out = vec![];
+        for r in &wanted {
+            out.extend(refwire::encode(&Msg::Request(r.0, r.1, r.2)));
+        }
+        sock.write_all(&out).await.map_err(|e| e.to_string())?;
+        tokio::time::sleep(std::time::Duration::from_millis(500)).await;
+        // now read everything and judge
+        let mut tail: Vec<u8> = vec![];
+        let mut pieces: Vec<Msg> = vec![];
+        let begin_read = std::time::Instant::now();
+        let mut verdict: Option<(&'static str, String)> = None;
+        'outer: loop {
+            match tokio::time::timeout(std::time::Duration::from_secs(5), sock.read(&mut buf)).await {
+                Ok(Ok(0)) | Ok(Err(_)) => {
+                    verdict = Some(("connection-ended-during-pipelined-requests", format!("after {} of 1024 answers the connection ended", pieces.len())));
+                    break;
+                }
+                Ok(Ok(n)) => tail.extend_from_slice(&buf[..n]),
+                Err(_) => {
+                    verdict = Some(("pipelined-requests-not-all-answered", format!("{} of 1024 answers arrived, then nothing for 5 s", pieces.len())));
+                    break;
+                }
+            }
+            let (all, used, err) = refwire::decode_stream(&tail);
+            for m in all {
+                if let Msg::Piece(i, b, d) = &m {
+                    let k = pieces.len();
+                    let w = wanted[k.min(1023)];
+                    let ok = k < 1024 && *i == w.0 && *b == w.1 && d.len() as u32 == w.2 && d[..] == t.pieces[*i as usize][*b as usize..(*b + w.2) as usize];
+                    if !ok {
+                        verdict = Some(("piece-for-invalid-request", format!("answer #{} over a real socket under back-pressure: Piece({},{},{}B) for Request{:?}{}", k + 1, i, b, d.len(), w, if *i == w.0 && *b == w.1 && d.len() as u32 == w.2 { " carries bytes that are not the stored range" } else { "" })));
+                        break 'outer;
+                    }
+                    pieces.push(m);
+                }
+            }
+            if let Some(e) = err {
+                verdict = Some(("undecodable-bytes-after-pipelined-requests", format!("after {} answers the stream cannot be decoded: {}", pieces.len(), e)));
+                break;
+            }
+            tail.drain(..used);
+            if pieces.len() == 1024 {
+                break;
+            }
+            if begin_read.elapsed() > std::time::Duration::from_secs(60) {
+                verdict = Some(("pipelined-requests-not-all-answered", format!("{} of 1024 answers within 60 s", pieces.len())));
+                break;
+            }
+        }
+        session_task.abort();
+        Ok::<_, String>((phase1_msgs + pieces.len(), verdict))
+    });
+    rdest::verif::set_http(None);
+    res
+}
+
 pub fn run(ctx: &Ctx) -> Outcome {
     let all = cases(ctx.tier == core::Tier::Thorough);
     let res = core::par_map(
@@ -408,7 +542,19 @@ pub fn run(ctx: &Ctx) -> Outcome {
         per.push(json!({"scenario": Scenario::name(&sc), "depth": depth, "states": st.states, "transitions": st.transitions, "depth_completed": st.depth_completed}));
         bfs_total.merge(&st);
     }
+    // real socket under back-pressure (single execution)
+    let bp_dir = core::private_cwd("c09", "backpressure");
+    let mut bp_row = json!(null);
+    match socket_backpressure_case(&bp_dir) {
+        Ok((n, None)) => bp_row = json!({"messages_judged": n, "answers_correct": 1024}),
+        Ok((n, Some((class, why)))) => {
+            bp_row = json!({"messages_judged": n, "violation": class});
+            ctx.violation(class, why, json!({"kind": "backpressure"}));
+        }
+        Err(e) => ctx.machinery_error(format!("real-socket back-pressure run could not be carried out: {}", e)),
+    }
     let mut o = Outcome::new("model_checking");
+    o.set("real_socket_backpressure_run", bp_row);
     o.set("states", json!(keys.len() as u64 + bfs_total.states));
     o.set("transitions", json!(steps + bfs_total.transitions));
     o.set("traces_validated_against_impl", json!(done + bfs_total.executions));
@@ -418,7 +564,7 @@ pub fn run(ctx: &Ctx) -> Outcome {
     o.set("histories", json!(all.len()));
     o.set("histories_ending_with_a_loaded_piece", json!(served));
     o.set("exhaustive", json!(done == all.len() as u64));
-    o.set("rule", json!(format!("requests = {:?} x {:?} x {:?} (240); histories: every single request in each of the contexts {:?} on an outgoing and an incoming connection; every pair (r1, r2) with r1 from {} and one of {:?} in between{}; states = distinct final snapshots, transitions = events executed. BFS part: one connection (both directions), events I/N interest, B bitfield, R real rotation (optimistic choice enumerated), Q0/Q2/Qb valid requests for owned pieces, Q1 request for the piece the client lacks, to the stated depth - this reaches the manager states in which the peer holds, or held, the optimistic unchoke; -with-second-peer: a manager-only peer P next to the connection (Pb bitfield, Pu unchoke = piece 1 gets reserved for it, Pi/Pn interest) whose changes fall into the same rotations; a leftover file of the right length sits under the name of piece 1; requests Q0 (owned) and Q1 (lacked, possibly reserved)", IDX, BEG, LEN, CONTEXTS, if ctx.tier == core::Tier::Thorough { "all 240 requests" } else { "the 6 loader requests" }, MIDS, if ctx.tier == core::Tier::Thorough { "; every triple over a 12-request sub-alphabet with every pair of in-between decisions" } else { "" })));
+    o.set("rule", json!(format!("requests = {:?} x {:?} x {:?} (240); histories: every single request in each of the contexts {:?} on an outgoing and an incoming connection; every pair (r1, r2) with r1 from {} and one of {:?} in between{}; states = distinct final snapshots, transitions = events executed. BFS part: one connection (both directions), events I/N interest, B bitfield, R real rotation (optimistic choice enumerated), Q0/Q2/Qb valid requests for owned pieces, Q1 request for the piece the client lacks, to the stated depth - this reaches the manager states in which the peer holds, or held, the optimistic unchoke; plus one real-socket run under back-pressure: a peer dials in over loopback TCP (accept path), seeds 4 x 64 KiB to the client, stays interested, then pipelines 1024 requests (varying piece, offset, length) without reading and judges all 1024 Piece frames afterwards; -with-second-peer: a manager-only peer P next to the connection (Pb bitfield, Pu unchoke = piece 1 gets reserved for it, Pi/Pn interest) whose changes fall into the same rotations; a leftover file of the right length sits under the name of piece 1; requests Q0 (owned) and Q1 (lacked, possibly reserved)", IDX, BEG, LEN, CONTEXTS, if ctx.tier == core::Tier::Thorough { "all 240 requests" } else { "the 6 loader requests" }, MIDS, if ctx.tier == core::Tier::Thorough { "; every triple over a 12-request sub-alphabet with every pair of in-between decisions" } else { "" })));
     let picks = ctx.seeded_pick(all.len(), 4);
     o.set("samples", Value::Array(picks.iter().map(|i| json!({"connection": if all[*i].incoming { "incoming" } else { "outgoing" }, "context": CONTEXTS[all[*i].ctx], "requests": all[*i].seq.iter().map(|(r, m)| json!({"request": [r.0, r.1, r.2], "then": MIDS[*m]})).collect::<Vec<_>>()})).collect()));
     o.assume("client owns pieces 0 (16387 B) and 2 (5 B), not piece 1; choke/unchoke decisions are produced by the real rotation (timeout_change_conn_state) after the connection reported its rates; overflow checks are on, as in cargo test / cargo run builds");
@@ -427,6 +573,19 @@ pub fn run(ctx: &Ctx) -> Outcome {
 }
 
 pub fn replay(_ctx: &Ctx, r: &Value) -> i32 {
+    if r["kind"] == "backpressure" {
+        let dir = core::private_cwd("c09", "replay");
+        let res = socket_backpressure_case(&dir);
+        println!("real-socket back-pressure run: {:?}", res);
+        return match res {
+            Ok((_, None)) => 0,
+            Ok((_, Some((class, why)))) => {
+                println!("VIOLATION property=C09 replay=<this file>\n  class={} {}", class, why);
+                1
+            }
+            Err(_) => 2,
+        };
+    }
     if let Some(name) = r["scenario"].as_str() {
         return explore::replay_verbose(&Upload { incoming: name.contains("incoming"), second: name.contains("second-peer") }, &explore::hist_from_json(&r["history"]), "C09");
     }
